@@ -338,4 +338,18 @@ var plans = map[string]Plan{
 			{Name: "fixed", Pkg: "./checks/c10", Run: "^TestFixed$", Shards: [2]int{1, 4}, Weight: 4},
 		},
 	},
+	"C19": {
+		Level: "exploration",
+		Rule: "cases are (program with services, option set {recurse, no-recurse} x {zap, no-zap}): services whose parameters / returns / exceptions range over required and optional primitives, enums, binary, nested containers, unhashable keys, slice-annotated sets, typedefs of each, structs, cross-file references, services extending services across files, go.name on parameters and exceptions. An in-process ServiceGenerator captures every GenerateServiceRequest and returns, into the generated packages, probe files rendered with plugin.GoFileFromTemplate / formatType; the lab is then built. The helpers of every function are exercised at run time by the reflection driver (success value, each declared exception, undeclared exception types and plain errors). " +
+			"Oracle: request self-consistency against the model (ids resolve, parent chains acyclic and as declared, root services == services of the generated files, Go names, import paths, directories, function / argument / exception lists); the probe assignments '*<formatted type> = &args.Field' and 'func(<formatted type>, error) ... = Helper.WrapResponse' type-check only for identical types, so the build decides identity; WrapResponse / UnwrapResponse map values and declared exceptions to the result struct and back without loss and refuse undeclared errors; IsException agrees. " +
+			"Non-trivial: program with >=2 functions (request/probes); any exception / undeclared-error case or a non-scalar return (helpers). Distinct: SHA-256 of (program, options) resp. of the helper case.",
+		Assumptions: []string{
+			"pointer / func assignability in Go holds only for identical types, so a successful build of the probe proves type identity",
+			"programs the generator rejects are C06's business and skipped here (counted)",
+		},
+		Units: []Unit{
+			{Name: "request+probes", Pkg: "./checks/c19", Run: "^TestRequestAndProbes$", Shards: [2]int{6, 12}, Weight: 2},
+			{Name: "c19-helpers", Run: "^TestC19Helpers$", Rapid: true, Shards: [2]int{6, 12}, Checks: [2]int{2000, 15000}, Lab: &LabSpec{Kind: "service", Programs: [2]int{16, 100}}},
+		},
+	},
 }
